@@ -131,11 +131,12 @@ func (m *CPU) Run(app risc.Application) (int, error) {
 			if resp.err != nil {
 				return 0, resp.err
 			}
-			if resp.flush {
+			if resp.flush && (!flush || resp.sequenceID < sequenceID) {
+				// Several units may ask for a flush in the same cycle: the oldest branch decides
 				sequenceID = resp.sequenceID
+				pc = resp.pc
 			}
 			flush = flush || resp.flush
-			pc = max(pc, resp.pc)
 			ret = ret || resp.isReturn
 		}
 
@@ -198,7 +199,7 @@ func (m *CPU) Run(app risc.Application) (int, error) {
 						if resp.err != nil {
 							return 0, resp.err
 						}
-						if resp.flush {
+						if resp.flush && resp.sequenceID < sequenceID {
 							log.Info(m.ctx, "\t️⚠️️⚠️ Proposition of an inner flush")
 							sequenceID = resp.sequenceID
 							flush = resp.flush
